@@ -819,6 +819,15 @@ func (w *Wallet) recovery(chainClient chain.Interface,
 				return nil
 			})
 			if err != nil {
+				// The batch was rolled back, but extending the
+				// address chains of the found addresses updated
+				// the cached account state right away. Drop it
+				// so that a retry starts from what is stored.
+				for _, scopedMgr := range scopedMgrs {
+					scopedMgr.InvalidateAccountCache(
+						waddrmgr.DefaultAccountNum,
+					)
+				}
 				return err
 			}
 
